@@ -16,13 +16,14 @@ def modifier_cases(tier):
     length 0..3 (with repeats) x factor x 1-2 terms"""
     base = [[["H", "H"], ["H2"]], [["H2", "e-"], ["H", "H", "e-"]]]
     sp = ["H", "H2", "e-"]
-    factors = ["f", "-2.0 * f", "a+b", "-a + b", "-(a) - b*c"]
+    # (the last two contain the text of the "0.0 + " seed every accumulated entry starts from)
+    factors = ["f", "-2.0 * f", "a+b", "-a + b", "-(a) - b*c", "-(10.0 + 2.0*f)*1e-3", "100.0 + a"]
     deps = [()]
     for n in (1, 2, 3):
         deps += list(itertools.product(sp, repeat=n))
     if tier == "quick":
         targets = ["H"]
-        facs = ["a+b", "-a + b"]
+        facs = ["a+b", "-a + b", "-(10.0 + 2.0*f)*1e-3"]
     else:
         targets = sp
         facs = factors
